@@ -45,7 +45,8 @@ def structural_mutants(rng, prog, k):
     import re
     text = prog.text
     names = sorted(set(re.findall(r"\b(?:[vutonlqhmeb]\d+|a\d+|p\d+|c\d+|g\d+)\b", text)))
-    calls = [m for m in re.finditer(r"(?<![\w\\])((?:\w+\.)?\w+)\(([^()\n]*)\)", text) if not m.group(1).startswith(("print", "def")) and "def " not in text[max(0, m.start() - 4):m.start()]]
+    calls = [m for m in re.finditer(r"(?<![\w\\])((?:\w+\.)?\w+)\(([^()\n]*)\)", text) if not m.group(1).startswith(("print", "def")) and "def " not in text[max(0, m.start() - 4):m.start()]
+             and not text[text.rfind("\n", 0, m.start()) + 1:m.start()].startswith("class ")]     # parent arguments: open finding parent-arguments-unchecked
     out = []
     for _ in range(k):
         kind = rng.choice(["drop-arg", "add-arg", "swap-arg", "rename-use", "receiver", "declared-type"])
@@ -167,6 +168,9 @@ def run(chk):
     flows = container_flows()
     cases += flows if thorough else [c for c in flows if c[0].endswith(("/def", "/param"))] + rng.sample(flows, 150)
     progs = [gen_prog.Gen(rng).program() for _ in range(120 if thorough else 25)]
+    # programs with definitions fed by nested statement-form if/match blocks (every path must bind the variable)
+    extra = [q for q in (gen_prog.Gen(rng).program() for _ in range(400 if thorough else 120)) if "blockdef" in str(q.items)][: (60 if thorough else 15)]
+    progs += extra
     cases += [("generated", p.text) for p in progs]
     for p in progs:
         cases += type_mutants(rng, p, 6 if thorough else 3)
